@@ -5,6 +5,13 @@ observation: `pymoto.common.mma.subsolv` and `MMA.mmasub` are replaced by record
 process (arguments, return value, memory `offset xold1 xold2` before the call, number of `np.linalg.solve` calls);
 `fn_callback` records the states of the variable signals at every iteration.
 
+watchdog: every run of the real optimiser is under a wall-clock budget (SIGALRM inside the harness process, >= 20 s, quick
+tier; x3 thorough); the recording callback checks after EVERY write-back that the states of the variable signals are the
+split of the design vector (x0, then the last sub-problem solution) and stops the run at the first violation; a run that is
+stopped or times out is a correspondence disagreement, what was recorded so far goes to the oracle, and a time-out on a
+problem the model completes is itself reported with the problem as failing input.  The quick tier starts no new case after
+120 s of running the real code (noted in the evidence).
+
 correspondence (model `Core/MMA.lean` run at Float)
   sens    : for EVERY recorded call, the gradients `dg` handed to mmasub vs the model's per-response sensitivity
             collection (`collectSens`: a variable signal whose sensitivity is None contributes zeros) fed with the
@@ -18,6 +25,10 @@ correspondence (model `Core/MMA.lean` run at Float)
             steps are large (prefix rule), the scalar/array kind of every written state, the stop reason
   expand  : xmin / xmax / move given as scalar, per signal, per variable (and wrong lengths) vs `MMA.xmin/xmax/move` after
             `response()` with maxit = 0 (exact), write-back kinds
+  writeback: the states the real `MMA.response()` writes in its first pass (maxit = 1, stopped at the first callback) vs the
+            model's `writeBackMMA` of the same design (exact); the layouts [array, scalar], [array, scalar, array, scalar],
+            [array(k), array(1), scalar] with the scalar as Python float / np.float64 / 0-d array come first in every run of
+            the `expand`/`writeback` and `run` streams
 oracle (on the real code, independent of the model), for every recorded call
   low < alfa <= xval <= beta < upp, xmin <= alfa, beta <= xmax, xval - alfa <= move*dx, beta - xval <= move*dx;
   the approximation reproduces g_i and grad g_i of the TEST PROBLEM at xval (value and gradient computed independently
@@ -30,7 +41,9 @@ oracle (on the real code, independent of the model), for every recorded call
 """
 import io
 import math
+import signal
 import struct
+import time
 import warnings
 from contextlib import redirect_stdout
 
@@ -52,6 +65,8 @@ ASSUMPTIONS = [
     "whole-run comparison stops at the first iteration whose relative step is below 1e-3 (afterwards the sign tests of the "
     "asymptote update act on differences at rounding level)",
     "convergence to the optimum is observed only (default asymptote parameters), it is not a theorem",
+    "wall-clock budget per run of the real optimiser: max(20 s, 0.02 s * n * maxit * #responses), x3 in the thorough tier "
+    "(normal runs take 0.05-2 s); quick tier: no new problem after 120 s of running the real code",
 ]
 
 FUEL = 60
@@ -60,6 +75,42 @@ FUEL = 60
 def _pm():
     import pymoto
     return pymoto
+
+
+class RunTimeout(Exception):
+    """raised inside the harness process by the watchdog when a run of the real code exceeds its budget"""
+
+
+class StopRun(Exception):
+    """raised by the recording callback at the first observed property violation: the run is not continued"""
+
+
+class watchdog:
+    """SIGALRM based wall-clock budget around ONE run of the real code (main thread of the harness process)"""
+
+    def __init__(self, seconds):
+        self.seconds = float(seconds)
+        self.fired = False
+
+    def _handler(self, signum, frame):
+        self.fired = True
+        raise RunTimeout(f"run of the real code exceeded its budget of {self.seconds:.0f} s")
+
+    def __enter__(self):
+        self.old = signal.signal(signal.SIGALRM, self._handler)
+        signal.setitimer(signal.ITIMER_REAL, self.seconds)
+        return self
+
+    def __exit__(self, *a):
+        signal.setitimer(signal.ITIMER_REAL, 0)
+        signal.signal(signal.SIGALRM, self.old)
+        return False
+
+
+def run_budget(p, quick=True):
+    """calibrated per-case budget: normal runs take 0.05-2 s (slowest seen on a loaded machine: 6 s)"""
+    n = sum(p["sizes"])
+    return max(20.0, 0.02 * n * p["maxit"] * len(p["resp"])) * (1.0 if quick else 3.0)
 
 
 class fast_init_loc:
@@ -250,7 +301,21 @@ def gen_spec(rng, sizes, lo, hi, scalars, positive_gap=None):
     return ("var", [rng.uniform(lo, hi) for _ in range(n)])
 
 
-def gen_problem(ctx, tiny=False):
+SCALAR_KINDS = ["pyfloat", "npfloat", "0d"]
+
+
+def forced_layouts(rng):
+    """signal layouts in which a size-1 signal FOLLOWS a multi-entry signal (its offset in the design vector differs from
+    its position in the signal list); every scalar representation occurs"""
+    out = []
+    for K in SCALAR_KINDS:
+        out.append([(3, "arr"), (1, K)])
+        out.append([(2, "arr"), (1, K), (3, "arr"), (1, rng.choice(SCALAR_KINDS))])
+        out.append([(rng.randint(2, 5), "arr"), (1, "arr"), (1, K)])
+    return out
+
+
+def gen_problem(ctx, tiny=False, layout=None):
     rng = ctx.rng
     nsig = rng.randint(1, 4)
     nmax = 40 if not ctx.quick else 16
@@ -258,13 +323,16 @@ def gen_problem(ctx, tiny=False):
     for _ in range(nsig):
         if rng.random() < 0.2:
             sizes.append(1)
-            kinds.append(rng.choice(["pyfloat", "npfloat", "arr"]))
+            kinds.append(rng.choice(["pyfloat", "npfloat", "0d", "arr"]))
         else:
             sizes.append(rng.randint(1, max(1, nmax // nsig)))
             kinds.append("arr")
     if sum(sizes) < 2:
         sizes[0] += rng.randint(1, 4)
         kinds[0] = "arr"
+    if layout is not None:
+        sizes, kinds = [k for k, _ in layout], [kd for _, kd in layout]
+        nsig = len(sizes)
     n = sum(sizes)
     m = rng.randint(1, 4)
     xmin_s = gen_spec(rng, sizes, -0.5, 0.3, [0.0, 0.0, 0.1, -1.0])
@@ -379,7 +447,8 @@ def make_states(p):
     out, pos = [], 0
     for k, kind in zip(p["sizes"], p["kinds"]):
         v = p["x0"][pos:pos + k]
-        out.append(float(v[0]) if kind == "pyfloat" else np.float64(v[0]) if kind == "npfloat" else np.array(v, dtype=float))
+        out.append(float(v[0]) if kind == "pyfloat" else np.float64(v[0]) if kind == "npfloat" else
+                   np.array(v[0], dtype=float) if kind == "0d" else np.array(v, dtype=float))
         pos += k
     return out
 
@@ -410,25 +479,54 @@ def run_impl(p):
                 mods.append(Resp([sigs[k] for k in ks], o, r, idx))
         net = pm.Network(mods)
     trace = []
+    info = {}
+    sizes = p["sizes"]
+    cum = np.concatenate([[0], np.cumsum(sizes)]).astype(int)
 
     def cb():
-        trace.append([("scalar", float(s.state)) if np.ndim(s.state) == 0 else ("arr", [float(v) for v in np.ravel(s.state)])
-                      for s in sigs])
+        st = [("scalar", float(s.state)) if np.ndim(s.state) == 0 else ("arr", [float(v) for v in np.ravel(s.state)])
+              for s in sigs]
+        trace.append(st)
+        # online: the states just written must be the split of the design vector (x0, then the last sub-problem solution)
+        want = np.asarray(p["x0"], dtype=float) if not rec.calls else rec.calls[-1]["out"]["x"]
+        for k, (kind, val) in enumerate(st):
+            w = want[cum[k]:cum[k + 1]]
+            got = np.array([val] if kind == "scalar" else val, dtype=float)
+            if got.size != w.size or not np.array_equal(got, w):
+                info["violation"] = (f"iteration {len(trace) - 1}: state written to variable signal {k} is {got.tolist()}, but the "
+                                     f"slice [{cum[k]}:{cum[k + 1]}] of the design vector is {w.tolist()} (signal sizes {sizes})")
+                raise StopRun(info["violation"])
+            if (kind == "scalar") != (sizes[k] == 1):
+                info["violation"] = (f"iteration {len(trace) - 1}: variable signal {k} of size {sizes[k]} was written as "
+                                     f"{'a scalar' if kind == 'scalar' else 'an array'}")
+                raise StopRun(info["violation"])
     kw = dict(p["opts"])
     kw.update(tolx=p["tolx"], tolf=p["tolf"], maxit=p["maxit"], move=spec_arg(p["move"]), xmin=spec_arg(p["xmin"]),
               xmax=spec_arg(p["xmax"]), fn_callback=cb, verbosity=0, a=np.array(p["a"], dtype=float),
               c=np.array(p["c"], dtype=float))
+    budget = p.get("_budget") or run_budget(p)
+    t0 = time.time()
+    wd = watchdog(budget)
     with Recorder() as rec, warnings.catch_warnings(), np.errstate(all="ignore"), redirect_stdout(io.StringIO()):
         warnings.simplefilter("ignore")
-        if p["entry"] == "MMA":
-            import pymoto.common.mma as mm
-            r = call_impl(lambda: mm.MMA(net, sigs, outs, **kw).response())
-        else:
-            r = call_impl(pm.minimize_mma, net, sigs, outs, **kw)
+        try:
+            with wd:
+                if p["entry"] == "MMA":
+                    import pymoto.common.mma as mm
+                    r = call_impl(lambda: mm.MMA(net, sigs, outs, **kw).response())
+                else:
+                    r = call_impl(pm.minimize_mma, net, sigs, outs, **kw)
+        except RunTimeout as e:     # the alarm went off outside call_impl
+            r = ("err", "RunTimeout", str(e))
     states = [("scalar", float(s.state)) if np.ndim(s.state) == 0 else ("arr", [float(v) for v in np.ravel(s.state)]) for s in sigs]
-    out = {"trace": trace, "calls": rec.calls, "states": states}
+    out = {"trace": trace, "calls": rec.calls, "states": states, "seconds": time.time() - t0}
     if r[0] == "err":
         out["raises"], out["msg"] = r[1], r[2]
+    if wd.fired:
+        out["timeout"] = budget
+        out["raises"] = "RunTimeout"
+    if "violation" in info:
+        out["violation"] = info["violation"]
     return out
 
 
@@ -529,7 +627,9 @@ def flat_state(st):
 
 
 def oracle_run(p, out):
-    if "raises" in out:
+    if "violation" in out:
+        return out["violation"]
+    if "raises" in out and not out.get("timeout"):
         return None
     sizes = p["sizes"]
     xmin, xmax, move = (spec_full(p[k], sizes) for k in ("xmin", "xmax", "move"))
@@ -677,20 +777,47 @@ def cmp_blocks(ctx, stream, case, pairs, rtol, atol, key):
     return True
 
 
+QUICK_WALL_CAP = 120.0     # quick tier: no new case is started after this many seconds of running the real code
+
+
+def finite_call(call):
+    return all(np.all(np.isfinite(np.asarray(v, dtype=float))) for v in list(call["args"].values()) + list(call["out"].values())
+               if v is not None) and all(np.all(np.isfinite(call[k])) for k in ("xval", "g", "dg") if k in call)
+
+
 def stream_runs(ctx, nprob):
     probs, outs = [], []
+    layouts = forced_layouts(ctx.rng)
+    t_start = time.time()
     for t in range(nprob):
-        p = gen_problem(ctx)
+        if ctx.quick and time.time() - t_start > QUICK_WALL_CAP:
+            ctx.notes.append(f"run stream: generation stopped after {t} of {nprob} problems (wall-time cap of the quick tier, "
+                             f"{QUICK_WALL_CAP:.0f} s of running the real code)")
+            ctx.branch("run.wall_cap_reached")
+            break
+        p = gen_problem(ctx, layout=layouts[t] if t < len(layouts) else None)
+        if not ctx.quick:
+            p["_budget"] = run_budget(p, quick=False)
         out = run_impl(p)
         why = oracle_run(p, out)
         if why:
             ctx.oracle_fail(why, {"op": "run", "problem": describe(p)})
+        if out.get("timeout"):
+            ctx.branch("run.watchdog_timeout")
+        if "violation" in out:
+            ctx.branch("run.stopped_at_first_violation")
+        if t < len(layouts):
+            ctx.branch("run.layout." + "+".join(("arr%d" % k if kd == "arr" else kd) for k, kd in layouts[t]))
         probs.append(p)
         outs.append(out)
     # ---- per-call requests
     reqs, meta = [], []
     for pi, (p, out) in enumerate(zip(probs, outs)):
         for ci, call in enumerate(out["calls"]):
+            if not finite_call(call):
+                ctx.disagree("subsolv", {"problem": describe(p), "call": ci}, "non-finite numbers in the recorded call", None,
+                             "the real optimiser handed / received NaN or inf at the sub-problem interface")
+                continue
             if "g" in call and "xmin" in call:
                 reqs.append(req_mmasub(p, call))
                 meta.append(("mmasub", pi, ci))
@@ -768,6 +895,11 @@ def stream_runs(ctx, nprob):
             ctx.branch("subsolv.n<=8" if a_["low"].size <= 8 else "subsolv.n<=20" if a_["low"].size <= 20 else "subsolv.n>20")
             ctx.branch("subsolv.newton=" + ("<30" if mo["newton"] < 30 else "<60" if mo["newton"] < 60 else ">=60"))
         else:
+            if out.get("timeout") and "raises" not in mo:
+                # observable: the optimiser did not produce the iterates the model produced
+                ctx.oracle_fail(f"the real optimiser did not finish within {out['timeout']:.0f} s ({len(out['trace'])} iterations, "
+                                f"{len(out['calls'])} sub-problems recorded) on a problem the model completes in {len(mo['trace'])} "
+                                f"iterations (stop: {mo['stop']})", {"op": "run", "problem": describe(p)})
             compare_run(ctx, p, out, mo, case, pi)
             st = convergence_stats(p, out)
             if st is not None:
@@ -854,14 +986,75 @@ def observe_convergence(ctx, conv):
                          f"the optimum {worst_d:.3e} (relative to the box), largest final constraint value {worst_g:.3e}")
 
 
+def make_signals(sizes, kinds, design):
+    pm = _pm()
+    sigs, pos = [], 0
+    with fast_init_loc():
+        for k, kd in zip(sizes, kinds):
+            v = design[pos:pos + k]
+            sigs.append(pm.Signal("x", float(v[0]) if kd == "pyfloat" else np.float64(v[0]) if kd == "npfloat" else
+                                  np.array(v[0], dtype=float) if kd == "0d" else np.array(v, dtype=float)))
+            pos += k
+    return sigs
+
+
+def first_writeback(sizes, kinds, design):
+    """the states `MMA.response()` writes to the variable signals in its first pass (observed at fn_callback, then the run
+    is stopped): list of ("scalar", v) / ("arr", [...]) or {"raises": ...}"""
+    pm = _pm()
+    import pymoto.common.mma as mm
+    sigs = make_signals(sizes, kinds, design)
+    with fast_init_loc():
+        g = pm.Signal("g", 1.0)
+    seen = []
+
+    def cb():
+        seen.append([("scalar", float(s.state)) if np.ndim(s.state) == 0 else ("arr", [float(v) for v in np.ravel(s.state)])
+                     for s in sigs])
+        raise StopRun("observed")
+    wd = watchdog(10.0)
+    with redirect_stdout(io.StringIO()), warnings.catch_warnings(), np.errstate(all="ignore"):
+        warnings.simplefilter("ignore")
+        try:
+            with wd:
+                r = call_impl(lambda: mm.MMA(pm.Network([]), sigs, [g, g], maxit=1, verbosity=0, fn_callback=cb).response())
+        except RunTimeout as e:
+            r = ("err", "RunTimeout", str(e))
+    if seen:
+        return seen[0]
+    return {"raises": r[1] if r[0] == "err" else "no callback"}
+
+
+def writeback_violation(sizes, design, wb):
+    """property: signal i receives the slice [cumlens[i]:cumlens[i+1]] of the design vector, a bare scalar iff it has one entry"""
+    if isinstance(wb, dict):
+        return f"MMA.response() raised {wb['raises']} before its first callback"
+    pos = 0
+    for i, (k, (kind, val)) in enumerate(zip(sizes, wb)):
+        want = design[pos:pos + k]
+        got = [val] if kind == "scalar" else list(val)
+        if got != list(want):
+            return (f"signals of sizes {sizes}, design {design}: signal {i} receives {got}, its slice [{pos}:{pos + k}] of the "
+                    f"design vector is {list(want)}")
+        if (kind == "scalar") != (k == 1):
+            return f"signals of sizes {sizes}: signal {i} (size {k}) is written as {kind}"
+        pos += k
+    return None
+
+
 def stream_expand(ctx):
-    """xmin / xmax / move specifications of all kinds (and wrong lengths) through MMA.response() with maxit = 0"""
+    """xmin / xmax / move specifications of all kinds (and wrong lengths) through MMA.response() with maxit = 0, and the FIRST
+    write-back of the design vector to the variable signals (maxit = 1, stopped at the first callback)"""
     pm = _pm()
     import pymoto.common.mma as mm
     reqs, meta = [], []
+    layouts = forced_layouts(ctx.rng)
     for t in range(40 if ctx.quick else 400):
         nsig = ctx.rng.randint(1, 4)
         sizes = [ctx.rng.choice([1, 1, 2, 3, 5]) for _ in range(nsig)]
+        if t < len(layouts):
+            sizes = [k for k, _ in layouts[t]]
+            nsig = len(sizes)
         n = sum(sizes)
         kind = ctx.rng.choice(["xmin", "xmax", "move"])
         r = ctx.rng.random()
@@ -874,12 +1067,14 @@ def stream_expand(ctx):
         else:
             spec = ("v", [ctx.rng.randint(0, 8) / 8 for _ in range(ctx.rng.choice([0, 1, n + 1, nsig + 1, 2]))])
         arg = float(spec[1]) if spec[0] == "s" else (np.array(spec[1], dtype=float) if t % 2 else list(spec[1]))
-        design = [ctx.rng.randint(1, 7) / 8 for _ in range(n)]
+        design = [ctx.rng.randint(1, 31) / 32 for _ in range(n)]
+        if t < len(layouts):
+            kinds = [kd for _, kd in layouts[t]]
+            ctx.branch("expand.layout." + "+".join(("arr%d" % k if kd == "arr" else kd) for k, kd in layouts[t]))
+        else:
+            kinds = ["arr" if (k > 1 or t % 3) else ctx.rng.choice(SCALAR_KINDS) for k in sizes]
+        sigs = make_signals(sizes, kinds, design)
         with fast_init_loc():
-            sigs, pos = [], 0
-            for k in sizes:
-                sigs.append(pm.Signal("x", np.array(design[pos:pos + k]) if (k > 1 or t % 3) else float(design[pos])))
-                pos += k
             g = pm.Signal("g", 1.0)
         kw = {"xmin": 0.0, "xmax": 1.0, "move": 0.1}
         kw[kind] = arg
@@ -894,10 +1089,14 @@ def stream_expand(ctx):
         # write-back kinds: one real iteration is not needed, the rule is applied by the first pass of the loop; use maxit=1
         reqs.append({"m": "c10.expand", "sizes": sizes, "kind": kind, "spec": {"s": spec[1]} if spec[0] == "s" else {"v": spec[1]},
                      "design": design})
-        meta.append((sizes, kind, spec, impl))
+        wb = first_writeback(sizes, kinds, design)
+        why = writeback_violation(sizes, design, wb)
+        if why:
+            ctx.oracle_fail(why, {"op": "writeback", "sizes": sizes, "kinds": kinds, "design": design})
+        meta.append((sizes, kind, spec, impl, kinds, design, wb))
     res = ctx.model(reqs)
-    for (sizes, kind, spec, impl), m in zip(meta, res):
-        case = {"sizes": sizes, "kind": kind, "spec": list(spec)}
+    for (sizes, kind, spec, impl, kinds, design, wb), m in zip(meta, res):
+        case = {"sizes": sizes, "kind": kind, "spec": list(spec), "kinds": kinds, "design": design}
         mo = m.get("ok")
         if mo is None:
             ctx.disagree("expand", case, impl, m, "driver error")
@@ -917,6 +1116,12 @@ def stream_expand(ctx):
         wk = ["scalar" if "scalar" in s else "arr" for s in mo["writeback"]]
         if wk != ["scalar" if k == 1 else "arr" for k in sizes]:
             ctx.disagree("expand", case, sizes, wk, "write-back kinds of the model")
+        # the first write-back of the real code vs the model's writeBackMMA of the same design (exact)
+        mwb = [["scalar", dec(s["scalar"])] if "scalar" in s else ["arr", dec(s["arr"])] for s in mo["writeback"]]
+        iwb = wb if isinstance(wb, dict) else [[kd, v] for kd, v in wb]
+        ctx.compare_exact("writeback", case, iwb, mwb, key=("writeback", str(sizes), str(kinds), str(design)))
+        if any(k == 1 and i > 0 and max(sizes[:i]) > 1 for i, k in enumerate(sizes)):
+            ctx.branch("writeback.scalar_after_multi_entry_signal")
 
 
 def transport_selftest(ctx):
@@ -963,18 +1168,35 @@ def correspondence(ctx):
 # search / replay
 # ------------------------------------------------------------------------------------------------
 def _oracle_case(w):
+    if w.get("op") == "writeback":
+        return writeback_violation(w["sizes"], w["design"], first_writeback(w["sizes"], w["kinds"], w["design"]))
     if w.get("op") == "run":
         p = undescribe(w["problem"])
         out = run_impl(p)
-        return oracle_run(p, out)
+        why = oracle_run(p, out)
+        if why is None and out.get("timeout"):
+            why = (f"the real optimiser did not finish within {out['timeout']:.0f} s ({len(out['trace'])} iterations, "
+                   f"{len(out['calls'])} sub-problems recorded)")
+        return why
     return None
 
 
 def search(ctx, disagreements):
     found = []
     seen = set()
+    t0 = time.time()
     for d in disagreements:
+        if time.time() - t0 > 120:          # every re-run is itself under the watchdog; the search as a whole is capped too
+            break
         c = d.get("case") or {}
+        if d.get("stream") == "writeback" and "design" in c:
+            w = {"op": "writeback", "sizes": c["sizes"], "kinds": c["kinds"], "design": c["design"]}
+            why = _oracle_case(w)
+            if why:
+                found.append({"what": why, "witness": w})
+            if len(found) >= 3:
+                break
+            continue
         if "problem" not in c:
             continue
         k = str(c["problem"]["x0"])
@@ -989,6 +1211,8 @@ def search(ctx, disagreements):
             break
     if not found:
         for t in range(60):
+            if time.time() - t0 > 180:
+                break
             p = gen_problem(ctx)
             out = run_impl(p)
             why = oracle_run(p, out)
@@ -1002,7 +1226,7 @@ def search(ctx, disagreements):
 def replay(ctx, data):
     w = data.get("witness", {})
     w = w.get("witness", w)
-    if w.get("op") == "run":
+    if w.get("op") in ("run", "writeback"):
         why = _oracle_case(w)
         return {"still_failing": bool(why), "what": why}
     if "script" in w:
